@@ -15,6 +15,14 @@ CHECKS = [
     },
 ]
 
+CHECKS.append({
+    "property_id": "C19",
+    "text": "Coq theorems over an executable model of get_type_layout/get_field_offsets/check_layout: for every type tree (unbounded nesting) acceptance implies equal total size and equal offset of every leaf field under the reference HLSL structured-buffer and Metal rules, and a size rejection reports the true sizes/alignments. The unrepaired checker violated this (two witnesses kept as Examples); repaired by the fix: commit 1908d9f. Scalar sizes are regenerated from the source; verdicts and reported numbers are compared with the implementation on enumerated and random struct trees through compile(validate_layout_consistency).",
+    "design_ref": "DESIGN.md §4 C19",
+    "note": "Trusted: Coq kernel, the reference rules spec_sa/spec_fields in coq/model/Layout.v (the statement of 'the layout'), translator, extraction + drivers; hand-written model tied by correspondence; u32 overflow not modelled.",
+    "technique": "Coq proof (mutual induction over type trees) + regenerated tables + model/implementation correspondence",
+})
+
 _claimed = {c["property_id"] for c in CHECKS}
 NOT_APPLICABLE = [
     {"property_id": p, "reason": "not yet claimed: model/theorems under construction (see DESIGN.md build order); no check registered until it passes on the unchanged tree"}
